@@ -27,11 +27,13 @@
 #define VP_SIGB 12   /* SIGUSR2 */
 #endif
 #define VP_PIPE_CAP 4
+#define VP_SA_APPTAG 0x00100000   /* private marker in sa_flags: disposition installed by the application (see vp_sig_deliver) */
 #define VP_NSIGFD 4
 
 struct sigaction vp_sa[2];                 /* current disposition of A, B */
 int vp_sa_calls, vp_sa_sets, vp_sa_fail_next;
 int vp_sig_blocked[2];
+int vp_sig_orig_kind[2];                   /* 0 SIG_DFL, 1 SIG_IGN, 2 application handler: what the tagged disposition is */
 int vp_sig_kernel_pending[2];              /* raised while blocked and no signalfd: left pending */
 int vp_sig_default_action[2];              /* delivered to SIG_DFL / SIG_IGN */
 int vp_sig_app_handled[2];                 /* delivered to the application's own handler */
@@ -41,9 +43,15 @@ int vp_pipe_rfd = -1, vp_pipe_wfd = -1;    /* harness syncs these with base->sig
 unsigned char vp_pipe_q[VP_PIPE_CAP]; int vp_pipe_n;
 int vp_sig_write_fail_next;                /* next write() on the self-pipe fails with EAGAIN */
 int vp_sig_bad_io;                         /* read/write on an fd the model does not know */
-struct vp_sigfd { int fd; int open; int sigs[2]; int pending[2]; } vp_sigfd[VP_NSIGFD];
+struct vp_sigfd { int fd; int open; unsigned gen; int sigs[2]; int pending[2]; } vp_sigfd[VP_NSIGFD];
 int vp_nsigfd, vp_sigfd_fail_next, vp_sigfd_close_bad;
 
+/* -DVP_SIG_ON_KERNEL_IO: descriptors come from env/kernel_io.h's fd universe (include it first); close() is its close() */
+#ifdef VP_SIG_ON_KERNEL_IO
+#define VP_SIGFD_ALIVE(f) ((f)->open && vp_kf[(f)->fd].open && vp_kf[(f)->fd].kind == VP_K_SIGNALFD && vp_kf[(f)->fd].gen == (f)->gen)
+#else
+#define VP_SIGFD_ALIVE(f) ((f)->open)
+#endif
 static int vp_sig_idx(int sig) { return sig == VP_SIGA ? 0 : (sig == VP_SIGB ? 1 : -1); }
 void vp_app_handler(int sig) { int k = vp_sig_idx(sig); if (k >= 0) vp_sig_app_handled[k]++; }
 
@@ -85,7 +93,14 @@ int signalfd(int fd, const sigset_t *mask, int flags)
 	if (vp_sigfd_fail_next) { vp_sigfd_fail_next = 0; errno = EMFILE; return -1; }
 	VP_ASSERT(vp_nsigfd < VP_NSIGFD, "sigmodel: out of signalfd slots (harness bound)");
 	f = &vp_sigfd[vp_nsigfd++];
-	f->fd = vp_next_fd++; f->open = 1;
+#ifdef VP_SIG_ON_KERNEL_IO
+	f->fd = vp_k_alloc_fd(VP_K_SIGNALFD);
+	if (f->fd < 0) { vp_nsigfd--; return -1; }
+	f->gen = vp_kf[f->fd].gen;
+#else
+	f->fd = vp_next_fd++;
+#endif
+	f->open = 1;
 	f->sigs[0] = sigismember(mask, VP_SIGA); f->sigs[1] = sigismember(mask, VP_SIGB);
 	f->pending[0] = f->pending[1] = 0;
 	return f->fd;
@@ -93,13 +108,13 @@ int signalfd(int fd, const sigset_t *mask, int flags)
 static struct vp_sigfd *vp_sigfd_of(int fd)
 {
 	int i;
-	for (i = 0; i < VP_NSIGFD; i++) if (i < vp_nsigfd && vp_sigfd[i].open && vp_sigfd[i].fd == fd) return &vp_sigfd[i];
+	for (i = 0; i < VP_NSIGFD; i++) if (i < vp_nsigfd && VP_SIGFD_ALIVE(&vp_sigfd[i]) && vp_sigfd[i].fd == fd) return &vp_sigfd[i];
 	return NULL;
 }
 static struct vp_sigfd *vp_sigfd_for_sig(int k)
 {
 	int i;
-	for (i = 0; i < VP_NSIGFD; i++) if (i < vp_nsigfd && vp_sigfd[i].open && vp_sigfd[i].sigs[k]) return &vp_sigfd[i];
+	for (i = 0; i < VP_NSIGFD; i++) if (i < vp_nsigfd && VP_SIGFD_ALIVE(&vp_sigfd[i]) && vp_sigfd[i].sigs[k]) return &vp_sigfd[i];
 	return NULL;
 }
 ssize_t write(int fd, const void *buf, size_t n)
@@ -135,12 +150,14 @@ ssize_t read(int fd, void *buf, size_t n)
 	}
 	vp_sig_bad_io++; errno = EBADF; return -1;
 }
+#ifndef VP_SIG_ON_KERNEL_IO
 int close(int fd)
 {
 	struct vp_sigfd *f = vp_sigfd_of(fd);
 	if (f) { f->open = 0; return 0; }
 	vp_sigfd_close_bad++; errno = EBADF; return -1;
 }
+#endif
 /* 1 if a read on fd would not block (what the I/O back end would report as readable) */
 static int vp_sig_fd_readable(int fd)
 {
@@ -158,8 +175,15 @@ static void vp_sig_deliver(int sig)
 		if (f) f->pending[k] = 1; else vp_sig_kernel_pending[k] = 1;
 		return;
 	}
-	/* function-to-function comparisons first: cbmc cannot fold `handler == (sighandler_t)1` for a real function
-	 * and would fork every delivery into a symbolic "maybe ignored" path */
+	/* Which handler is installed is decided WITHOUT comparing function pointers against SIG_DFL/SIG_IGN
+	 * (cbmc cannot fold `f == (sighandler_t)1` for a real function f and forks every delivery): dispositions
+	 * that come from the application carry the private flag VP_SA_APPTAG in sa_flags (the harness sets it in the
+	 * dispositions it installs before libevent runs, and records their kind in vp_sig_orig_kind[]); a
+	 * disposition without the tag was installed by libevent. */
+	if (vp_sa[k].sa_flags & VP_SA_APPTAG) {
+		if (vp_sig_orig_kind[k] == 2) vp_app_handler(sig); else vp_sig_default_action[k]++;
+		return;
+	}
 #ifdef VP_HAVE_SIGNAL_C
 	if (vp_sa[k].sa_handler == evsig_handler) {
 		int before = vp_pipe_n;
@@ -169,8 +193,6 @@ static void vp_sig_deliver(int sig)
 		return;
 	}
 #endif
-	if (vp_sa[k].sa_handler == vp_app_handler) { vp_app_handler(sig); return; }
-	if (vp_sa[k].sa_handler == SIG_DFL || vp_sa[k].sa_handler == SIG_IGN) { vp_sig_default_action[k]++; return; }
 	VP_ASSERT(0, "sigmodel: a handler is installed that nobody registered");
 }
 #endif
